@@ -245,20 +245,31 @@ def tally(ctx, cases):
             ctx.hist("rc:" + c.impl[0].split()[0])
 
 
+CHUNK = 1000
+
+
 def explore(ctx, h, drv, n, label):
     r = C.Rng(ctx.seed, "c15/" + label)
     cases = gen_cases(r, n)
     for c in cases[:4]:
         ctx.sample(dict(kind=c.kind, ops=[o[:600] for o in c.ops]))
-    probs = differential(ctx, [h], [drv, "c15"] if drv else None, cases, timeout=900)
-    tally(ctx, cases)
-    for c, p in probs:
-        if p[0] == "diverge":
-            ctx.corr_broken.append("model/implementation diverge on `%s`: impl `%s` model `%s`" % (c.ops[p[1]][:300], p[2][:200], p[3][:200]))
-            if len(ctx.corr_broken) <= 5:
-                ctx.log("DIVERGE", c.ops[p[1]][:400], "| impl:", p[2][:300], "| model:", p[3][:300])
-        else:
-            ctx.fail(signature(c, p), dict(case=c.kind, ops=c.ops, impl=c.impl, detail=p[1:]), str(p[1])[:400])
+    probs = []
+    # one process per chunk and a short timeout: on a broken tree a case may hang (cyclic node lists) or exhaust memory
+    for i in range(0, len(cases), CHUNK):
+        part = cases[i:i + CHUNK]
+        ps = differential(ctx, [h], [drv, "c15"] if drv else None, part, timeout=120)
+        tally(ctx, part)
+        probs += ps
+        for c, p in ps:
+            if p[0] == "diverge":
+                ctx.corr_broken.append("model/implementation diverge on `%s`: impl `%s` model `%s`" % (c.ops[p[1]][:300], p[2][:200], p[3][:200]))
+                if len(ctx.corr_broken) <= 5:
+                    ctx.log("DIVERGE", c.ops[p[1]][:400], "| impl:", p[2][:300], "| model:", p[3][:300])
+            else:
+                ctx.fail(signature(c, p), dict(case=c.kind, ops=c.ops, impl=c.impl, detail=p[1:]), str(p[1])[:400])
+        if len(ctx.violations) >= 8 or len(ctx.corr_broken) > 2000:
+            ctx.log("enough failing inputs found; stopping the exploration early")
+            break
     return probs
 
 
@@ -288,6 +299,8 @@ def run(ctx):
     if ctx.proof_broken or ctx.corr_broken:
         ctx.log("obligation or correspondence broken: widening the search for a failing input")
         for i in range(3):
+            if len(ctx.violations) >= 8:
+                break
             explore(ctx, h, drv, 5000, "search%d" % i)
 
 
